@@ -112,6 +112,9 @@ impl MoneyFlowIndex {
 	ensures
 		(r is Ok) == self.valid(),
 		r is Ok ==> r->Ok_0.inv() && r->Ok_0.cfg == self && r->Ok_0.pmf@ == 0real && r->Ok_0.nmf@ == 0real,
+		// C08: the constant state for this candle (mfi_const_step)
+		r is Ok ==> exists|c: Candle| c.high == candle.high_s() && c.low == candle.low_s() && c.close == candle.close_s() && c.volume == candle.volume_s()
+			&& #[trigger] r->Ok_0.const_state(c),
 //@replace Ok(Self::Instance { ==> Ok(MoneyFlowIndexInstance {
 //@hint before Ok(Self::Instance
 	proof {
@@ -123,6 +126,7 @@ impl MoneyFlowIndex {
 		if r is Ok {
 			let v = r->Ok_0.window.view();
 			assert(v =~= Seq::new(self.period as nat, |i: int| static_candle));
+			assert(r->Ok_0.const_state(static_candle));
 		}
 	}
 //@end
@@ -145,6 +149,8 @@ impl MoneyFlowIndexInstance {
 		// the window slides by the new candle
 		exists|c: Candle| c.high == candle.high_s() && c.low == candle.low_s() && c.close == candle.close_s() && c.volume == candle.volume_s()
 			&& #[trigger] old(self).window.view().drop_first().push(c) == final(self).window.view(),
+		// the candle that left the window becomes the predecessor of the oldest remaining one
+		final(self).last_prev_candle == old(self).window.view()[0],
 		// documented: MFI = 1 - 1/(1 + positive flow / negative flow) over the last `period` candles; 0.5 when there is no negative flow
 		({
 			let (p, n) = (final(self).pmf@, final(self).nmf@);
@@ -196,6 +202,31 @@ pub open spec fn mfi_signals(pre: &MoneyFlowIndexInstance, value: ValueType, pos
 	&&& Cross::step(&pre.cross_upper, &(value, mk(1real - pre.cfg.zone@)), &post.cross_upper, &hi)
 	&&& s1 == Action::of_i8((if sv(lo) < 0 { 1int } else { 0int }) - (if sv(hi) > 0 { 1int } else { 0int }))
 	&&& s2 == Action::of_i8((if sv(lo) > 0 { 1int } else { 0int }) - (if sv(hi) < 0 { 1int } else { 0int }))
+}
+
+// ---- C08 at indicator level: fed the candle it was initialised with, MoneyFlowIndex returns 0.5 between its two fixed zones and never signals
+// (the cross detectors' remembered difference moves once, from 0 to the constant distance to the zone, which cannot produce a crossing)
+impl MoneyFlowIndexInstance {
+	pub open spec fn const_state(&self, c: Candle) -> bool {
+		let z = self.cfg.zone@;
+		&&& self.inv() && 0real <= z <= 0.5real && self.last_prev_candle == c
+		&&& self.window.view() =~= Seq::new(self.window.view().len(), |i: int| c)
+		&&& (self.cross_lower.up.last_delta@ == 0real || self.cross_lower.up.last_delta@ == 0.5real - z)
+		&&& (self.cross_upper.up.last_delta@ == 0real || self.cross_upper.up.last_delta@ == z - 0.5real)
+	}
+}
+pub proof fn mfi_const_step(pre: &MoneyFlowIndexInstance, c: Candle, post: &MoneyFlowIndexInstance, value: ValueType, s1: Action, s2: Action, lo: Action, hi: Action)
+	requires pre.const_state(c), post.inv(), post.cfg == pre.cfg,
+		post.window.view() == pre.window.view().drop_first().push(c), post.last_prev_candle == pre.window.view()[0],
+		post.nmf@ == 0real ==> value@ == 0.5real,
+		mfi_signals(pre, value, post, s1, s2, lo, hi)
+	ensures value@ == 0.5real, s1 is None, s2 is None, post.const_state(c)
+{
+	let n = pre.window.view().len();
+	assert(pre.window.view()[0] == c);
+	assert(post.window.view() =~= Seq::new(n, |i: int| c));
+	lemma_cf_const(n, c, pf_fn());
+	lemma_cf_const(n, c, nf_fn());
 }
 } // verus!
 fn main() {}
